@@ -231,7 +231,7 @@ func init() {
 						late = append(late, o)
 					}
 				}
-				items = allItems("C02", c02Oracle, late, "incr-write", "incr-cancel", "shutdown", "incr-abortdrop")
+				items = allItems("C02", c02Oracle, late, "incr-write", "cancel", "shutdown", "incr-abortdrop")
 			}
 			for _, sp := range c02Programs(tier) {
 				if sp.Q == 0 {
